@@ -101,6 +101,23 @@ def parse(cls, data):
     return f(data) if f else cls(**data)
 
 
+def _param_entry(mod, cls, data):
+    f = mod.__dict__.get("_ENTRY_F")
+    if f is None or f.__annotations__.get("t") is not cls:
+        def f(t):
+            return t
+        f.__annotations__["t"] = cls
+        f = mod.__dict__["_ENTRY_F"] = _NS["utype"].parse(f)
+    return f(data)
+
+
+ENTRIES = {
+    "type_transform": lambda mod, cls, data: _NS["type_transform"](data, cls),
+    "function-parameter": _param_entry,
+    "list-element": lambda mod, cls, data: _NS["T"](_NS["List"][cls])([data]),
+}
+
+
 def unload(mod):
     sys.modules.pop(mod.__name__, None)
     try:
@@ -317,6 +334,16 @@ def _depth(acc, dname, tier):
                     viol("cyclic-" + got + cut, f"a cyclic input must be rejected with ParseError, got {got}: {short(r, 80)}")
                 continue
             should_accept = limit is None or want <= limit
+            if "+" not in dname and label.startswith("depth=") and "wrap" not in label and got in ("ok", "perr"):
+                # the same value through the other entry points: a plain conversion, a function parameter, an element of a
+                # list -- the limit counts data classes, not the way in
+                for ename, efn in ENTRIES.items():
+                    st2, r2 = call_guarded(lambda: efn(mod, cls, data), wall_s=3.0, step_budget=1_500_000)
+                    acc.transitions += 1
+                    got2 = "ok" if st2 == "ok" else ("perr" if isinstance(r2, uexc.ParseError) else "other")
+                    if got2 != got:
+                        viol(f"entry-{ename}-{got2}-vs-{got}", f"through {ename} the input is {'accepted' if got2 == 'ok' else 'rejected'} "
+                                                             f"but the class itself {'accepts' if got == 'ok' else 'rejects'} it")
             if should_accept and got != "ok":
                 viol(f"rejected-depth-{want}", f"nesting depth {want} <= limit but the input was rejected: {short(r, 100)}")
             elif not should_accept and got == "ok":
